@@ -476,9 +476,11 @@ class Interp:
                     return Outcome(False, None, e, tuple(type(w.message).__name__ for w in wl))
 
     def step(self, i, ev):
-        self.steps += 1
         if self.hooks is not None:
-            self.hooks.before(self, i, ev)
+            if self.hooks.before(self, i, ev) is False:     # premise gate: the step is not executed
+                self.skipped += 1
+                return None
+        self.steps += 1
         out = self.call(ev)
         if out.ok and ev.get('id'):
             self.store[ev['id']] = out.value
